@@ -206,7 +206,10 @@ class VTr:
             if isinstance(s, ast.Slice):
                 if not bt.startswith('list:') or s.upper is not None or s.step is not None or s.lower is None:
                     raise Untranslatable(f'subscript {ast.unparse(e)[:40]}')
-                k, kt = self.expr(s.lower)
+                if isinstance(s.lower, ast.Constant) and isinstance(s.lower.value, int) and not isinstance(s.lower.value, bool) and s.lower.value >= 0:
+                    k, kt = str(s.lower.value), NAT
+                else:
+                    k, kt = self.expr(s.lower)
                 if kt != NAT:
                     raise Untranslatable('list slice bound is not a known non-negative int')
                 return f'({base}.drop {k})', bt
